@@ -761,6 +761,16 @@ def c_arm_mass(case, ctx):
     lam = np.linalg.eigvalsh((M + M.T) / 2)
     if not lam[0] > 0:
         raise Violation("Arm.massMatrix not positive definite: lambda_min %.6g" % lam[0])
+    if case.get("nudge") is not None:
+        # the next evaluation on the same arm, at a configuration a few parts in 1e7 .. 1e5 away (the other side of a
+        # finite-difference stencil, a very small integrator step): it is the mass matrix of THAT configuration
+        r_ = float(case["nudge"])
+        q2 = np.where(q != 0, q * (1.0 - r_), r_)          # towards zero: stays inside the joint limits
+        M2 = np.asarray(sut(arm.massMatrix, q2.copy()), dtype=float)
+        Mor2 = mass_oracle(rig.S, rig.homes, rig.Glist, q2)
+        tol2 = band_tol(q2, TIGHT, amax(Mor2), Reach(rig.S, rig.homes, rig.Glist, q2).Mb)
+        ctx.label("evaluated again at a configuration parts in 1e7..1e5 away")
+        close(M2, Mor2, tol2, "Arm.massMatrix at a configuration next to the one just evaluated vs sum_i J_i^T G_i J_i")
 
 
 def _arm_fd(case, ctx, which):
@@ -907,6 +917,11 @@ def trajectory_cases(draw):
     c["QD"] = np.stack([draw(vecs(n, 10.0)) for _ in range(N)])
     c["QDD"] = np.stack([draw(vecs(n, 10.0)) for _ in range(N)])
     c["FT"] = np.stack([draw(vecs(6, 100.0)) for _ in range(N)])
+    # dwell: some samples repeat the previous sample's motion exactly (the arm stands still, or moves uniformly) while
+    # the tip wrench goes on changing
+    for k in range(1, N):
+        if draw(st.integers(0, 3)) == 0:
+            c["Q"][k], c["QD"][k], c["QDD"][k] = c["Q"][k - 1], c["QD"][k - 1], c["QDD"][k - 1]
     c["g"] = draw(st.one_of(st.just(np.array([0.0, 0.0, -9.81])), vecs(3, 100.0)))
     return c
 
@@ -972,6 +987,7 @@ def arm_cases(draw, need_tau=False):
     c["qdd"] = draw(vecs(n, 100.0))
     if need_tau:
         c["tau"] = draw(vecs(n, 100.0))
+    c["nudge"] = draw(st.one_of(st.none(), G.log_uniform(1e-7, 1e-5)))
     c["gdefault"] = draw(st.integers(0, 4)) == 0
     c["g"] = draw(st.one_of(st.just(np.array([0.0, 0.0, -9.81])), vecs(3, 100.0)))
     c["wform"] = draw(st.sampled_from(["wrench", "wrench", "flat", "flat", "omitted"]))
